@@ -49,7 +49,7 @@ def scratch_parent(ctx):
     return ctx.work
 
 
-def startup_case(ctx, faults, script_fault, sanity_ok):
+def startup_case(ctx, faults, script_fault, sanity_ok, sanity_mode='exit1'):
     """faults: per test case one of ok/missing/unreadable/unwritable/absolute"""
     base = tempfile.mkdtemp(prefix='mis-', dir=scratch_parent(ctx))
     os.chmod(base, 0o755)
@@ -75,13 +75,19 @@ def startup_case(ctx, faults, script_fault, sanity_ok):
     script = os.path.join(work, 'test.sh')
     if script_fault != 'missing':
         with open(script, 'w') as fh:
-            fh.write('#!/bin/sh\nexit %d\n' % (0 if sanity_ok else 1))
+            if sanity_ok or sanity_mode == 'exit1':
+                fh.write('#!/bin/sh\nexit %d\n' % (0 if sanity_ok else 1))
+            elif sanity_mode == 'also':
+                fh.write('#!/bin/sh\nexit 7\n')          # the --also-interesting code is NOT "interesting"
+            else:
+                # an uninteresting input whose test also writes to its own copy of the input
+                fh.write('#!/bin/sh\nfor f in tc0.c sub/tc1.c tc2.c; do [ -f "$f" ] && echo scribble >> "$f"; done\nexit 1\n')
         os.chmod(script, 0o644 if script_fault == 'noexec' else 0o755)
     for dp, dns, fns in os.walk(base):
         os.chown(dp, 65534, 65534)
         for x in fns:
             os.chown(os.path.join(dp, x), 65534, 65534)
-    case = {'work': work, 'tmp': tmp, 'script': script, 'test_cases': names}
+    case = {'work': work, 'tmp': tmp, 'script': script, 'test_cases': names, 'also_interesting': 7 if sanity_mode == 'also' else None}
     cf = os.path.join(base, 'case.json')
     with open(cf, 'w') as fh:
         json.dump(case, fh)
@@ -167,6 +173,19 @@ def explore(ctx):
                 k = KIND.get(res['exc'], 9)
                 out = [k] + ([{0: 0, 4: 4, 2: 2}.get(res.get('access'), 9), idx] if k == 1 else [idx] if k == 2 else [])
             cases.append((coq_env(faults, script_fault, sanity_ok, names), out))
+    # an uninteresting input must be refused also when the test answers with the --also-interesting code, and a test
+    # that writes to its copy of the input must not reach the user's files (same file system: TMPDIR next to the work dir)
+    for mode in ('also', 'scribble'):
+        for faults in (('ok',), ('ok', 'ok'), ('ok', 'ok', 'ok')):
+            res, names = startup_case(ctx, faults, 'ok', False, sanity_mode=mode)
+            ctx.evaluations += 1
+            ctx.nontriv((faults, 'sanity', mode))
+            ctx.count('startup:InsaneTestCaseError:' + mode)
+            rep = {'faults': list(faults), 'script': 'ok', 'sanity_ok': False, 'sanity_mode': mode}
+            if res['exc'] != 'InsaneTestCaseError':
+                ctx.violation(f'wrong-error:InsaneTestCaseError:got-{res["exc"]}', f'uninteresting input, test {"exits with the also-interesting code 7" if mode == "also" else "exits 1 after appending to its input"}: expected InsaneTestCaseError, got {res["exc"]}', rep)
+            if not res.get('unchanged'):
+                ctx.violation('startup-side-effect', f'uninteresting input ({mode}): the working directory changed although start-up was refused', rep)
     ctx.sample({'misuse': ['ok', 'unreadable'], 'expected': 'InvalidTestCaseError naming sub/tc1.c, access R_OK'})
     bad = coq.corr_eval('c17', ['From CV Require Import Driver.Startup Driver.StartupCorr.', 'From Coq Require Import String.', 'Open Scope string_scope.'],
                         'run_startup', cases, shard=200)
@@ -216,6 +235,12 @@ def pass_arguments(ctx):
 
 def replay(ctx, payload):
     r = payload['replay']
+    if r.get('sanity_mode'):
+        res, names = startup_case(ctx, r['faults'], r['script'], r['sanity_ok'], sanity_mode=r['sanity_mode'])
+        print('replay:', res)
+        if res['exc'] != 'InsaneTestCaseError' or not res.get('unchanged'):
+            ctx.violation('replayed', f'{res}', r)
+        return
     if 'faults' in r:
         res, names = startup_case(ctx, tuple(r['faults']), r['script'], r['sanity_ok'])
         print('replay:', res, 'expected', expected(tuple(r['faults']), r['script'], r['sanity_ok']))
